@@ -379,6 +379,20 @@ def classify(w, c, dn, f, V, pre_bytes, post_bytes, pre_entry, reruns=0):
             if any(v[0] != cfparse.BLK for v in others):
                 sigs.add("C05-pending-stale-parity")
                 continue
+        # C05-zero-marker-over-stale-parity: the stripe had become wholly unused (its files were deleted; the content writer drops
+        # the DELETED blocks of a stripe no file uses, but nothing rewrites its parity), so a new file allocated there gets the
+        # ZERO marker ("parity holds zeros") while the parity still holds the deleted data, which fix rebuilds and takes for new
+        if h == b"\xff" * len(h):
+            hit = False
+            for nm_, row_ in (prev(pos) or {}).items():
+                if row_[0] == cfparse.BLK and row_[2] is not None:
+                    g_, gi_ = row_[2], row_[3]
+                    Vg_ = w.store.get(nm_.decode(), g_.sub, g_.size, g_.mtime_sec, g_.mtime_nsec)
+                    if Vg_ is not None and (Vg_[gi_ * bs:(gi_ + 1) * bs] + b"\0" * bs)[:len(want)] == got:
+                        hit = True
+            if hit:
+                sigs.add("C05-zero-marker-over-stale-parity")
+                continue
         # C05-chg-length: the block replaced, at the same position, a synced block of another byte length; the rebuilt OLD bytes
         # pass the "is it new data?" test because the past hash is compared over the NEW block's length
         row = (prev(pos) or {}).get(dn.encode())
